@@ -83,6 +83,12 @@ def run(ctx):
             if not (isinstance(a, tuple) and a[0] == "index"):
                 # `nullmap.get(i)` with the None case handled, `*first()`, ...: any one-byte read located in the bitmap
                 for cand in (v[2][2], v[2][3]):
+                    # `*nullmap.get(i)?` (the payload of the Option after `?`) / `nullmap.get(i).copied().unwrap_or(..)`: byte i of the bitmap
+                    g_ = T.find(cand, lambda x: T.is_call(x, r"slice::<impl \[T\]>::get$") and len(x[2]) == 2)
+                    if g_ is not None and isinstance(cand, tuple) and cand[0] in ("okpayload", "somepayload", "deref") and T.contains(g_[2][0], lambda x: T.is_field(x, "nullmap")):
+                        a = ("index", g_[2][0], None, T.affine(g_[2][1]))
+                        b = v[2][3] if cand is v[2][2] else v[2][2]
+                        break
                     rd_ = cursor.reading(cand)
                     if rd_ is not None and rd_["width"] == 1 and T.contains(rd_["base"], lambda x: T.is_field(x, "nullmap")):
                         a = ("index", rd_["base"], None, rd_["off"])
